@@ -137,9 +137,9 @@ func planFor(prop, tier string) tierPlan {
 		return tierPlan{runs: 4000000, batch: 2000, capS: 1800, minS: 120}
 	case "C17":
 		if q {
-			return tierPlan{runs: 20000, batch: 250, capS: 120, minS: 30, cross: 24}
+			return tierPlan{runs: 14000, batch: 250, capS: 120, minS: 30, cross: 1 << 30}
 		}
-		return tierPlan{runs: 1500000, batch: 1000, capS: 1800, minS: 120, cross: 160}
+		return tierPlan{runs: 1500000, batch: 1000, capS: 1500, minS: 120, cross: 1 << 30}
 	default:
 		if q {
 			return tierPlan{runs: 8000, batch: 100, capS: 120, minS: 45}
